@@ -177,11 +177,22 @@ def gen_qr(rng, pools, tps, base_secs, mode=None):
 
 
 def gen_aec(rng, pools):
-    a = {"ae_type": nat(rng.choice([0, 1, 2, 3, 4, 5])), "ip_address": list(rng.choice(pools.ips[:3]))}
-    if rng.random() < 0.5:
-        a["ae_code"] = nat(rng.choice([0, 3, 255]))
-    if rng.random() < 0.5:
-        a["ae_transport_flags"] = nat(rng.choice([0, 1, 2, 31]))
+    # a small pool of keys so that the same event is buffered repeatedly within a block (aggregation), plus fresh ones
+    if rng.random() < 0.7:
+        k = rng.randrange(4)
+        a = {"ae_type": nat(k % 3), "ip_address": list(pools.ips[k % 2])}
+        if k >= 2:
+            a["ae_code"] = nat(3)
+        if k == 3:
+            a["ae_transport_flags"] = nat(1)
+    else:
+        a = {"ae_type": nat(rng.choice([0, 1, 2, 3, 4, 5])), "ip_address": list(rng.choice(pools.ips[:3]))}
+        if rng.random() < 0.5:
+            a["ae_code"] = nat(rng.choice([0, 3, 255]))
+        if rng.random() < 0.5:
+            a["ae_transport_flags"] = nat(rng.choice([0, 1, 2, 31]))
+    if rng.random() < 0.4:
+        a["ae_count_in"] = nat(rng.choice([0, 1, 7, 1 << 40]))     # left-over count of a record that was read earlier
     return a
 
 
